@@ -1,6 +1,7 @@
 package main
 
 import (
+	"time"
 	"fmt"
 	"go/ast"
 	"go/token"
@@ -59,6 +60,7 @@ type Obligation struct {
 	Entry   bool
 	EdgePCs []string
 	replayed   bool
+	Budget     time.Duration
 	replayLog  string
 	replayTest string
 }
